@@ -261,6 +261,19 @@ theorem beq_rescale (n : Int) (s k : Nat) : Dec.beq (ofNumScale n s) (ofNumScale
       (ofNumScale_num (n * 10 ^ k) (s + k)).1, (ofNumScale_num (n * 10 ^ k) (s + k)).2,
       Int.pow_add, Int.mul_assoc, Int.mul_comm (10 ^ k) (10 ^ s)]
 
+theorem neg_num (b : Dec) : (neg' b).num = - b.num := by
+  unfold neg' Dec.num
+  cases b.neg <;> simp
+
+/-- `a - b` and `a + (-b)` are the same outcome, for every pair. -/
+theorem sub_eq_add_neg (a b : Dec) : Dec.sub a b = Dec.add a (neg' b) := by
+  have hs : (neg' b).scale = b.scale := rfl
+  simp only [Dec.sub, Dec.add, align, neg_num, hs, Int.neg_mul, Int.sub_eq_add_neg]
+
+/-- Negation is an involution and never changes digits or scale. -/
+theorem neg_neg (a : Dec) : neg' (neg' a) = a := by
+  cases a with | mk n m s => simp [neg']
+
 /-! Witnesses (kernel-checked): the classic binary-float traps are exact. -/
 example : Dec.add ⟨false, 1, 1⟩ ⟨false, 2, 1⟩ = .ok ⟨false, 3, 1⟩ := by rfl
 example : Dec.beq ⟨false, 110, 2⟩ ⟨false, 11, 1⟩ = true := by decide
